@@ -103,7 +103,8 @@ func init() {
 		Rules: []Rule{
 			R11(),
 			R51(),
-			Only(R22(), `filestore\.Add/content`),
+			Only(R22(), `filestore\.Add/content`, `recursive-removal`, `metadata-lookup-before-content`),
+			Only(R24(), `content-length`),
 			Only(R11(), fns("(*GcsEmu).finishUpload")),
 			R08(Only8("finishUpload")),
 			R34(),
@@ -120,7 +121,7 @@ func init() {
 	Properties["C03"] = &PropertySpec{
 		Modules: bt,
 		Rules: []Rule{
-			Only(R59(), `^a/|^d/`),
+			Only(R59(), `^a/|^d/`, `^f/`),
 			Only(R54(), `^\(\*server\)\.ReadRows`, `^mergeRowRanges`, `^mergeSimpleRanges`, `^no-carried`),
 			Only(R53(), `^b/`),
 			Only(R43(), fns("(*server).ReadRows")),
@@ -149,6 +150,7 @@ func init() {
 	Properties["C05"] = &PropertySpec{
 		Modules: bt,
 		Rules: []Rule{
+			Only(R19("cam"), `selector-is-an-emptiness`, `emptiness-of-filtered`),
 			Only(R58(), `^a/`),
 			R53(),
 			R50(),
@@ -167,6 +169,7 @@ func init() {
 	Properties["C06"] = &PropertySpec{
 		Modules: bt,
 		Rules: []Rule{
+			R36(),
 			Only(R59(), `^c/`),
 			Only(R58(), `^d/`),
 			R50(),
@@ -186,7 +189,7 @@ func init() {
 	Properties["C07"] = &PropertySpec{
 		Modules: st,
 		Rules: []Rule{
-			Only(R56(), `^a/`),
+			Only(R56(), `^a/`, `^c/`),
 			R46(),
 			Only(R44(), `memstore`),
 			R11(),
@@ -264,6 +267,7 @@ func init() {
 	Properties["C12"] = &PropertySpec{
 		Modules: bt,
 		Rules: []Rule{
+			R36(),
 			Only(R58(), `^a/`),
 			R40(),
 			R50(),
@@ -309,7 +313,7 @@ func init() {
 			Only(R04(), fns(adminRPCs...)),
 			R05(),
 			R08(Only8("live-families")),
-			Only(R21(), `^D2/`),
+			Only(R21(), `^D2/`, `^D3/optional`),
 			R38(),
 			Only(R33(), fns("(*server).ModifyColumnFamilies")),
 		},
@@ -342,7 +346,7 @@ func init() {
 	Properties["C16"] = &PropertySpec{
 		Modules: bt,
 		Rules: []Rule{
-			Only(R59(), `^c/`),
+			Only(R59(), `^c/`, `^e/`),
 			Only(R55(), `^b/`, `^c/`),
 			R47(),
 			R45(),
@@ -373,7 +377,7 @@ func init() {
 	Properties["C18"] = &PropertySpec{
 		Modules: bt,
 		Rules: []Rule{
-			Only(R59(), `^a/`),
+			Only(R59(), `^a/`, `^f/`),
 			R06(),
 			Only(R02R03(), fns("(*table).gc")),
 			Only(R02R03(), fns(rpcMutateRow, rpcMutateRows, rpcCAM, rpcRMW)),
@@ -406,6 +410,8 @@ func init() {
 	Properties["C20"] = &PropertySpec{
 		Modules: []string{"bigtable", "storage"},
 		Rules: []Rule{
+			Only(R59(), `^g/`, `^f/`),
+			Only(R24(), `content-length`),
 			Only(R56(), `^a/`),
 			Only(R55(), `^c/`, `^d/`),
 			R54(),
